@@ -306,6 +306,7 @@ theorem render_eq (d : String) (n : Node) : ∀ b, render d b n = rend b (toT d 
   induction n with
   | field c => intro b; cases b <;> simp [render, toT, rend]
   | int i => intro b; cases b <;> simp [render, toT] <;> split <;> simp [rend]
+  | flt n i => intro b; cases b <;> simp [render, toT] <;> split <;> simp [rend]
   | none => intro b; cases b <;> simp [render, toT, rend]
   | sqlop o l r ihl ihr => intro b; cases b <;> simp [render, toT, rend, renderOp, ihl, ihr]
   | sqlin x l ihx ihl => intro b; cases b <;> simp [render, toT, rend, ihx, ihl]
@@ -328,6 +329,9 @@ theorem wf_applyOv (d : String) (ov : OvBin) (a b : Node) :
 theorem wf_int (d : String) (i : Int) : wf false (toT d (Node.int i)) = true := by
   simp only [toT]; split <;> simp [wf]
 
+theorem wf_flt (d : String) (n : Bool) (i : Nat) : wf false (toT d (Node.flt n i)) = true := by
+  simp only [toT]; split <;> simp [wf]
+
 theorem wf_noneRule (d : String) (rule : NoneRule) (ov : OvBin) (a : Node) (h : wf false (toT d a) = true) :
     wf false (toT d (noneRule rule ov a)) = true := by
   cases rule <;> simp [noneRule, toT, wf, wf_applyOv, h]
@@ -340,6 +344,7 @@ theorem wf_build (d : String) {s : Srt} (e : E s) : wf (isItems s) (toT d (build
   induction e with
   | col c => simp [build, toT, wf, isItems]
   | const i => simp only [build, isItems]; exact wf_int d i
+  | fconst n i => simp only [build, isItems]; exact wf_flt d n i
   | ar o l r ihl ihr =>
     simp only [isItems] at ihl ihr ⊢
     simp only [build]
@@ -379,135 +384,168 @@ theorem wf_buildB (d : String) (e : BoolE) : wf false (toT d (buildB e)) = true 
 
 /-! ## the value of the parsed text is the three-valued value of the source tree -/
 
-theorem truth_b2i (x : Option Bool) : truth (x.map b2i) = x := by
+theorem truth_b2i (D : Dom) (x : Option Bool) : truth D (x.map (b2i D)) = x := by
   cases x with
   | none => rfl
-  | some b => cases b <;> simp [truth, b2i]
+  | some b => cases b <;> simp [truth, b2i, D.isTrue_one, D.isTrue_zero]
 
-theorem in3_eq_inSpec (x : Option Int) (ys : List (Option Int)) : in3 x ys = inSpec x ys := by
+theorem or3_false_left (z : Option Bool) : or3 (some false) z = z := by
+  rcases z with _ | _ | _ <;> rfl
+
+def inF (D : Dom) (a : D.V) (ys : List (Option D.V)) : Option Bool :=
+  if ys.any (eqItem D a) then some true else if ys.any Option.isNone then none else some false
+
+theorem inSpec_some (D : Dom) (a : D.V) (ys : List (Option D.V)) : inSpec D (some a) ys = inF D a ys := by
+  cases ys with
+  | nil => simp [inSpec, inF]
+  | cons y ys => simp only [inSpec, inF, List.isEmpty_cons, Bool.false_eq_true, if_false]
+
+theorem in3_some (D : Dom) (a : D.V) (ys : List (Option D.V)) : in3 D (some a) ys = inF D a ys := by
   induction ys with
-  | nil => simp [in3, inSpec]
+  | nil => simp [in3, inF]
   | cons y ys ih =>
-    simp only [in3, ih]
-    cases x with
+    simp only [in3, ih, inF, List.any_cons]
+    cases y with
     | none =>
-      cases ys <;> simp [inSpec, eq3, or3]
-    | some a =>
-      cases y with
-      | none =>
-        cases ys with
-        | nil => simp [inSpec, eq3, or3]
-        | cons z zs =>
-          simp only [inSpec, eq3, List.isEmpty_cons, Bool.false_eq_true, if_false, List.contains_cons]
-          split <;> simp_all [or3]
-      | some b =>
-        cases ys with
-        | nil =>
-          by_cases hab : a = b
-          · simp [inSpec, eq3, or3, hab]
-          · have : (a == b) = false := by simp [hab]
-            simp [inSpec, eq3, or3, hab, this]
-        | cons z zs =>
-          simp only [inSpec, eq3, List.isEmpty_cons, Bool.false_eq_true, if_false, List.contains_cons]
-          by_cases hab : a = b
-          · simp [hab, or3]
-          · have : (a == b) = false := by simp [hab]
-            simp only [this]
-            have h2 : (some a == some b) = false := by simp [hab]
-            simp only [h2, Bool.false_or]
-            have h3 : ((none : Option Int) == some b) = false := by simp
-            simp only [h3, Bool.false_or]
-            split
-            · simp [or3]
-            · split <;> simp [or3]
+      simp only [eq3, eqItem, Option.isNone_none, Bool.false_or, Bool.true_or]
+      generalize ys.any (eqItem D a) = p
+      generalize ys.any Option.isNone = q
+      cases p <;> cases q <;> simp [or3]
+    | some b =>
+      simp only [eq3, eqItem, Option.isNone_some, Bool.false_or]
+      cases D.cmp .eq a b
+      · simp only [or3_false_left, Bool.false_or]
+      · simp [or3]
 
-theorem ev_int (r : Row) (d : String) (i : Int) : ev r (toT d (Node.int i)) = .v (some i) := by
+theorem in3_eq_inSpec (D : Dom) (x : Option D.V) (ys : List (Option D.V)) : in3 D x ys = inSpec D x ys := by
+  cases x with
+  | some a => rw [in3_some, inSpec_some]
+  | none =>
+    induction ys with
+    | nil => simp [in3, inSpec]
+    | cons y ys ih =>
+      simp only [in3, ih]
+      cases ys <;> simp [inSpec, eq3, or3]
+
+theorem natAbs_neg_cast (i : Int) (h : i < 0) : -((i.natAbs : Nat) : Int) = i := by omega
+theorem natAbs_nonneg_cast (i : Int) (h : ¬ i < 0) : ((i.natAbs : Nat) : Int) = i := by omega
+
+theorem ev_int (D : Dom) (r : Row D) (d : String) (i : Int) :
+    ev D r (toT d (Node.int i)) = .v (some (D.ofInt i)) := by
   simp only [toT]
   split
-  · simp only [ev, preSem, Option.map]
-    congr 2; omega
-  · simp only [ev]
-    congr 2; omega
+  · rename_i h
+    simp only [ev, preSem, Option.map, Lit.val, D.neg_ofNat, natAbs_neg_cast i h]
+  · rename_i h
+    simp only [ev, Lit.val, natAbs_nonneg_cast i h]
 
-theorem ev_applyOv (r : Row) (d : String) (ov : OvBin) (a b : Node) (x y : Option Int)
-    (ha : ev r (toT d a) = .v x) (hb : ev r (toT d b) = .v y) :
-    ev r (toT d (applyOv ov a b)) = .v (if ov.swapped then binSem ov.op y x else binSem ov.op x y) := by
+theorem ev_flt (D : Dom) (r : Row D) (d : String) (n : Bool) (i : Nat) :
+    ev D r (toT d (Node.flt n i)) = .v (some (if n then D.neg (D.flt i) else D.flt i)) := by
+  simp only [toT]
+  split <;> simp_all [ev, preSem, Lit.val]
+
+theorem ev_applyOv (D : Dom) (r : Row D) (d : String) (ov : OvBin) (a b : Node) (x y : Option D.V)
+    (ha : ev D r (toT d a) = .v x) (hb : ev D r (toT d b) = .v y) :
+    ev D r (toT d (applyOv ov a b)) = .v (if ov.swapped then binSem D ov.op y x else binSem D ov.op x y) := by
   unfold applyOv
   split <;> simp [toT, ev, ha, hb]
 
-theorem binSem_ar (o : ArOp) (x y : Option Int) :
-    binSem (arOv o).op x y = arSem o x y ∧ (arOv o).swapped = false ∧
-    binSem (arRov o).op x y = arSem o x y ∧ (arRov o).swapped = true := by
-  cases o <;> cases x <;> cases y <;>
+theorem binSem_ar (D : Dom) (o : ArOp) (x y : Option D.V) :
+    binSem D (arOv o).op x y = lift2 (D.ar o) x y ∧ (arOv o).swapped = false ∧
+    binSem D (arRov o).op x y = lift2 (D.ar o) x y ∧ (arRov o).swapped = true := by
+  cases o <;>
     simp [arOv, arRov, Extracted.add, Extracted.sub, Extracted.mul, Extracted.div, Extracted.radd, Extracted.rsub,
-      Extracted.rmul, Extracted.rdiv, Extracted.moduloOp, binSem, lift2, arSem]
+      Extracted.rmul, Extracted.rdiv, Extracted.moduloOp, binSem]
 
-theorem binSem_cmp (f : Bool) (o : CmpOp) (x y : Option Int) :
-    binSem (cmpOv f o).op x y = (cmpSem o x y).map b2i ∧ (cmpOv f o).swapped = false ∧
-    binSem (cmpOv f o.flip).op y x = (cmpSem o x y).map b2i := by
-  cases o <;> cases f <;> cases x <;> cases y <;>
-    simp [cmpOv, CmpOp.flip, Extracted.lt, Extracted.le, Extracted.gt, Extracted.ge, Extracted.exprEq, Extracted.exprNe,
-      Extracted.fieldEq, Extracted.fieldNe, binSem, lift2, cmpSem, Bool.beq_comm, bne]
+theorem lift2_cmp_map (D : Dom) (o : CmpOp) (x y : Option D.V) :
+    lift2 (fun a b => some (b2i D (D.cmp o a b))) x y =
+      (lift2 (fun a b => some (D.cmp o a b)) x y).map (b2i D) := by
+  cases x <;> cases y <;> simp [lift2]
 
-theorem binSem_and (x y : Option Bool) : binSem .and (x.map b2i) (y.map b2i) = (and3 x y).map b2i := by
+theorem lift2_cmp_flip (D : Dom) (o : CmpOp) (x y : Option D.V) :
+    lift2 (fun a b => some (b2i D (D.cmp o.flip a b))) y x =
+      (lift2 (fun a b => some (D.cmp o a b)) x y).map (b2i D) := by
+  cases x <;> cases y <;> simp [lift2, D.cmp_flip]
+
+theorem binSem_cmp (D : Dom) (f : Bool) (o : CmpOp) (x y : Option D.V) :
+    binSem D (cmpOv f o).op x y = (lift2 (fun a b => some (D.cmp o a b)) x y).map (b2i D) ∧
+    (cmpOv f o).swapped = false ∧
+    binSem D (cmpOv f o.flip).op y x = (lift2 (fun a b => some (D.cmp o a b)) x y).map (b2i D) := by
+  refine ⟨?_, ?_, ?_⟩
+  · rw [← lift2_cmp_map]
+    cases o <;> cases f <;>
+      simp [cmpOv, Extracted.lt, Extracted.le, Extracted.gt, Extracted.ge, Extracted.exprEq, Extracted.exprNe,
+        Extracted.fieldEq, Extracted.fieldNe, binSem]
+  · cases o <;> cases f <;>
+      simp [cmpOv, Extracted.lt, Extracted.le, Extracted.gt, Extracted.ge, Extracted.exprEq, Extracted.exprNe,
+        Extracted.fieldEq, Extracted.fieldNe]
+  · rw [← lift2_cmp_flip]
+    cases o <;> cases f <;>
+      simp [cmpOv, CmpOp.flip, Extracted.lt, Extracted.le, Extracted.gt, Extracted.ge, Extracted.exprEq, Extracted.exprNe,
+        Extracted.fieldEq, Extracted.fieldNe, binSem]
+
+theorem binSem_and (D : Dom) (x y : Option Bool) :
+    binSem D .and (x.map (b2i D)) (y.map (b2i D)) = (and3 x y).map (b2i D) := by
   simp [binSem, truth_b2i]
 
-theorem binSem_or (x y : Option Bool) : binSem .or (x.map b2i) (y.map b2i) = (or3 x y).map b2i := by
+theorem binSem_or (D : Dom) (x y : Option Bool) :
+    binSem D .or (x.map (b2i D)) (y.map (b2i D)) = (or3 x y).map (b2i D) := by
   simp [binSem, truth_b2i]
 
-theorem preSem_not (x : Option Bool) : preSem .not (x.map b2i) = (not3 x).map b2i := by
+theorem preSem_not (D : Dom) (x : Option Bool) : preSem D .not (x.map (b2i D)) = (not3 x).map (b2i D) := by
   simp [preSem, truth_b2i]
 
-theorem binSem_is_none (x : Option Int) : binSem .is x none = some (b2i x.isNone) := by
-  cases x <;> simp [binSem]
+theorem binSem_is_none (D : Dom) (x : Option D.V) : binSem D .is x none = some (b2i D x.isNone) := by
+  cases x <;> simp [binSem, isSame]
 
-theorem binSem_isNot_none (x : Option Int) : binSem .isNot x none = some (b2i x.isSome) := by
-  cases x <;> simp [binSem, bne]
+theorem binSem_isNot_none (D : Dom) (x : Option D.V) : binSem D .isNot x none = some (b2i D x.isSome) := by
+  cases x <;> simp [binSem, isSame]
 
-theorem ev_build (r : Row) (d : String) {s : Srt} (e : E s) :
-    ev r (toT d (build e)) = embed s (eval r e) := by
+theorem ev_build (D : Dom) (r : Row D) (d : String) {s : Srt} (e : E s) :
+    ev D r (toT d (build e)) = embed D s (eval D r e) := by
   induction e with
   | col c => simp [build, toT, ev, eval, embed]
-  | const i => simp only [build, eval, embed]; exact ev_int r d i
+  | const i => simp only [build, eval, embed]; exact ev_int D r d i
+  | fconst n i => simp only [build, eval, embed]; exact ev_flt D r d n i
   | ar o l x ihl ihx =>
     simp only [embed] at ihl ihx ⊢
     simp only [build, eval]
     split
     · rename_i ho; subst ho
-      have hm := (binSem_ar .mod (eval r l) (eval r x)).1
+      have hm := (binSem_ar D .mod (eval D r l) (eval D r x)).1
       simp only [arOv] at hm
       simp only [toT]
       split
       · simp [ev, ihl, ihx, hm]
       · simp [ev, ihl, ihx]
         simpa [Extracted.moduloOp] using hm
-    · have h := binSem_ar o
+    · have h := binSem_ar D o
       split
-      · rw [ev_applyOv r d _ _ _ _ _ ihx ihl]
-        simp [(h (eval r l) (eval r x)).2.2]
-      · rw [ev_applyOv r d _ _ _ _ _ ihl ihx]
-        simp [(h (eval r l) (eval r x)).1, (h (eval r l) (eval r x)).2.1]
+      · rw [ev_applyOv D r d _ _ _ _ _ ihx ihl]
+        simp [(h (eval D r l) (eval D r x)).2.2]
+      · rw [ev_applyOv D r d _ _ _ _ _ ihl ihx]
+        simp [(h (eval D r l) (eval D r x)).1, (h (eval D r l) (eval D r x)).2.1]
   | neg x ih => simp only [embed] at ih ⊢; simp [build, toT, ev, eval, ih, Extracted.negOp, preSem]
   | pos x ih => simp only [embed] at ih ⊢; simp [build, toT, ev, eval, ih, Extracted.posOp, preSem]
   | b2i b ih => simp only [embed] at ih ⊢; simpa [build, eval] using ih
   | cmp o l x ihl ihx =>
     simp only [embed] at ihl ihx ⊢
     simp only [build, eval]
-    have h := binSem_cmp
+    have h := binSem_cmp D
     split
-    · rw [ev_applyOv r d _ _ _ _ _ ihx ihl]
-      simp [(h _ o.flip (eval r x) (eval r l)).2.1, (h _ o (eval r l) (eval r x)).2.2]
-    · rw [ev_applyOv r d _ _ _ _ _ ihl ihx]
-      simp [(h _ o (eval r l) (eval r x)).2.1, (h _ o (eval r l) (eval r x)).1]
+    · rw [ev_applyOv D r d _ _ _ _ _ ihx ihl]
+      simp [(h _ o.flip (eval D r x) (eval D r l)).2.1, (h _ o (eval D r l) (eval D r x)).2.2]
+    · rw [ev_applyOv D r d _ _ _ _ _ ihl ihx]
+      simp [(h _ o (eval D r l) (eval D r x)).2.1, (h _ o (eval D r l) (eval D r x)).1]
   | andOp l x ihl ihx =>
     simp only [embed] at ihl ihx ⊢
     simp only [build, eval]
-    rw [ev_applyOv r d _ _ _ _ _ ihl ihx]
+    rw [ev_applyOv D r d _ _ _ _ _ ihl ihx]
     simp [Extracted.andOp, binSem_and]
   | orOp l x ihl ihx =>
     simp only [embed] at ihl ihx ⊢
     simp only [build, eval]
-    rw [ev_applyOv r d _ _ _ _ _ ihl ihx]
+    rw [ev_applyOv D r d _ _ _ _ _ ihl ihx]
     simp [Extracted.orOp, binSem_or]
   | andFn l x ihl ihx => simp only [embed] at ihl ihx ⊢; simp [build, eval, toT, ev, ihl, ihx, Extracted.andFn, binSem_and]
   | orFn l x ihl ihx => simp only [embed] at ihl ihx ⊢; simp [build, eval, toT, ev, ihl, ihx, Extracted.orFn, binSem_or]
@@ -531,9 +569,10 @@ theorem ev_build (r : Row) (d : String) {s : Srt} (e : E s) :
   | inull t ih => simp only [embed] at ih ⊢; simp [build, toT, ev, eval, ih]
   | icons h t ihh iht => simp only [embed] at ihh iht ⊢; simp [build, toT, ev, eval, ihh, iht]
 
-theorem ev_buildN (r : Row) (d : String) (e : NumE) : ev r (toT d (buildN e)) = .v (evalN r e) := ev_build r d e
-theorem ev_buildB (r : Row) (d : String) (e : BoolE) :
-    ev r (toT d (buildB e)) = .v ((evalB r e).map b2i) := ev_build r d e
+theorem ev_buildN (D : Dom) (r : Row D) (d : String) (e : NumE) :
+    ev D r (toT d (buildN e)) = .v (evalN D r e) := ev_build D r d e
+theorem ev_buildB (D : Dom) (r : Row D) (d : String) (e : BoolE) :
+    ev D r (toT d (buildB e)) = .v ((evalB D r e).map (b2i D)) := ev_build D r d e
 
 /-! ## no (in)equality operator is followed by NULL -/
 
@@ -609,6 +648,9 @@ theorem eqNullT_applyOv (d : String) (ov : OvBin) (a b : Node)
 theorem eqNullT_int (d : String) (i : Int) : eqNullT (toT d (Node.int i)) = false := by
   simp only [toT]; split <;> simp [eqNullT]
 
+theorem eqNullT_flt (d : String) (n : Bool) (i : Nat) : eqNullT (toT d (Node.flt n i)) = false := by
+  simp only [toT]; split <;> simp [eqNullT]
+
 theorem isNull_noneRule (d : String) (rule : NoneRule) (ov : OvBin) (a : Node) :
     (toT d (noneRule rule ov a)).isNull = false := by
   cases rule
@@ -620,6 +662,7 @@ theorem isNull_build (d : String) {s : Srt} (e : E s) : (toT d (build e)).isNull
   induction e with
   | col c => simp [build, toT, T.isNull]
   | const i => simp only [build, toT]; split <;> simp [T.isNull]
+  | fconst n i => simp only [build, toT]; split <;> simp [T.isNull]
   | ar o l r =>
     simp only [build]
     split
@@ -657,6 +700,7 @@ theorem eqNullT_build (d : String) {s : Srt} (e : E s) : eqNullT (toT d (build e
   induction e with
   | col c => simp [build, toT, eqNullT]
   | const i => simp only [build]; exact eqNullT_int d i
+  | fconst n i => simp only [build]; exact eqNullT_flt d n i
   | ar o l r ihl ihr =>
     simp only [build]
     split
@@ -717,40 +761,40 @@ theorem foldl_or3 (xs : List (Option Bool)) : ∀ a, xs.foldl or3 a = or3 a (any
   | nil => intro a; simp [any3, or3_false]
   | cons x xs ih => intro a; rw [List.foldl_cons, ih, or3_assoc, or3_any3]
 
-theorem evalB_foldR_and (r : Row) (es : List BoolE) : ∀ e,
-    evalB r (foldR .andFn e es) = all3 ((e :: es).map (evalB r)) := by
+theorem evalB_foldR_and (D : Dom) (r : Row D) (es : List BoolE) : ∀ e,
+    evalB D r (foldR .andFn e es) = all3 ((e :: es).map (evalB D r)) := by
   induction es with
   | nil => intro e; simp only [foldR, List.map]; rw [← and3_all3]; simp [all3, and3_true]
   | cons e' es ih => intro e; simp only [foldR, evalB, eval, ih]; rw [and3_all3]; rfl
 
-theorem evalB_foldl_and (r : Row) (es : List BoolE) : ∀ e,
-    evalB r (es.foldl .andFn e) = (es.map (evalB r)).foldl and3 (evalB r e) := by
+theorem evalB_foldl_and (D : Dom) (r : Row D) (es : List BoolE) : ∀ e,
+    evalB D r (es.foldl .andFn e) = (es.map (evalB D r)).foldl and3 (evalB D r e) := by
   induction es with
   | nil => intro e; rfl
   | cons e' es ih => intro e; simp only [List.foldl_cons, List.map_cons, ih, evalB, eval]
 
-theorem evalB_foldR_or (r : Row) (es : List BoolE) : ∀ e,
-    evalB r (foldR .orFn e es) = any3 ((e :: es).map (evalB r)) := by
+theorem evalB_foldR_or (D : Dom) (r : Row D) (es : List BoolE) : ∀ e,
+    evalB D r (foldR .orFn e es) = any3 ((e :: es).map (evalB D r)) := by
   induction es with
   | nil => intro e; simp only [foldR, List.map]; rw [← or3_any3]; simp [any3, or3_false]
   | cons e' es ih => intro e; simp only [foldR, evalB, eval, ih]; rw [or3_any3]; rfl
 
-theorem evalB_foldl_or (r : Row) (es : List BoolE) : ∀ e,
-    evalB r (es.foldl .orFn e) = (es.map (evalB r)).foldl or3 (evalB r e) := by
+theorem evalB_foldl_or (D : Dom) (r : Row D) (es : List BoolE) : ∀ e,
+    evalB D r (es.foldl .orFn e) = (es.map (evalB D r)).foldl or3 (evalB D r e) := by
   induction es with
   | nil => intro e; rfl
   | cons e' es ih => intro e; simp only [List.foldl_cons, List.map_cons, ih, evalB, eval]
 
-theorem evalB_foldFn_and (f : Fold) (r : Row) (e : BoolE) (es : List BoolE) :
-    evalB r (foldFn f .andFn e es) = all3 ((e :: es).map (evalB r)) := by
+theorem evalB_foldFn_and (D : Dom) (f : Fold) (r : Row D) (e : BoolE) (es : List BoolE) :
+    evalB D r (foldFn f .andFn e es) = all3 ((e :: es).map (evalB D r)) := by
   cases f
-  · exact evalB_foldR_and r es e
+  · exact evalB_foldR_and D r es e
   · simp only [foldFn, evalB_foldl_and, foldl_and3, List.map_cons, and3_all3]
 
-theorem evalB_foldFn_or (f : Fold) (r : Row) (e : BoolE) (es : List BoolE) :
-    evalB r (foldFn f .orFn e es) = any3 ((e :: es).map (evalB r)) := by
+theorem evalB_foldFn_or (D : Dom) (f : Fold) (r : Row D) (e : BoolE) (es : List BoolE) :
+    evalB D r (foldFn f .orFn e es) = any3 ((e :: es).map (evalB D r)) := by
   cases f
-  · exact evalB_foldR_or r es e
+  · exact evalB_foldR_or D r es e
   · simp only [foldFn, evalB_foldl_or, foldl_or3, List.map_cons, or3_any3]
 
 
